@@ -10,7 +10,7 @@ from . import tlc
 
 def main():
     bad = 0
-    mods = sorted(os.path.basename(p)[:-4] for p in glob.glob(os.path.join(tlc.SPEC_DIR, "*.tla")))
+    mods = sorted(os.path.basename(p)[:-4] for p in glob.glob(os.path.join(tlc.SPEC_DIR, "*.tla")) if "_TTrace_" not in p)
     for m in mods:
         ok, out = tlc.sany(m)
         print(("ok   " if ok else "FAIL ") + m)
